@@ -245,12 +245,21 @@ pub fn ops_plan<T: Subj>(tier: Tier) -> Plan<T> {
             folds.push((len << 12) | code);
         }
     }
-    let mut p = panic_plan::<T>(tier).with_aux(Aux::BitIdx, amounts).with_aux(Aux::Custom, seqcodes).with_aux(Aux::K(20), folds);
+    // the 196 assign sequences run against the first 8 values of the second register only (heavy)
+    let mut p = panic_plan::<T>(tier).with_aux(Aux::BitIdx, amounts).with_aux(Aux::Custom, seqcodes).with_aux(Aux::K(20), folds).with_heavy_limit(8);
     // the third register of the assign sequences: a handful of values
     p.c = p.a.iter().take(6).cloned().collect();
     if T::BITS == 8 {
-        // FULL^2 x 6 for the sequences would be 196 sequences x 65536 x 6: bound the second register
+        // FULL^2 x 6 for the sequences would be 196 sequences x 65536 x 6: bound the third register
         p.c = p.a.iter().step_by(51).cloned().collect();
+        if tier == Tier::Quick {
+            // every value in the first register against every fifth value (and the boundaries) in the second:
+            // both sides of a differential transition may panic (microseconds each)
+            let mut b: Vec<T> = p.b.iter().step_by(5).cloned().collect();
+            b.extend([p.b[1], p.b[127], p.b[128], p.b[129], p.b[254]]);
+            p.b = b;
+            p.label = "FULL x (every 5th value + boundaries)".to_string();
+        }
     }
     p
 }
@@ -258,51 +267,19 @@ pub fn ops_plan<T: Subj>(tier: Tier) -> Plan<T> {
 /// closure pass of the arithmetic checks: re-seed the first register with the values the model
 /// derives from the initial GRID states, keep the GRID in the second register
 pub fn closure_plan<T: Subj, Z: refmodel::ZNum>(ops: &[vengine::Op<T, Z>], tier: Tier) -> Option<Plan<T>> {
-    if tier != Tier::Thorough || T::BITS <= 16 || T::N > 4 {
+    if T::BITS <= 16 || T::N > 4 {
         return None;
     }
     let base = arith::<T>(Tier::Quick);
-    let (v1, found) = vengine::closure_values(ops, &base, 160, 20_000);
-    let b: Vec<Vec<u8>> = base.a.iter().map(|x| x.le()).collect();
+    // quick: a light pass (600 derived values x 100 initial ones); thorough: 20 000 x the whole GRID
+    let (side, cap, bcap) = if tier == Tier::Thorough { (160, 20_000, usize::MAX) } else { (60, 600, 100) };
+    let (v1, found) = vengine::closure_values(ops, &base, side, cap);
+    let b: Vec<Vec<u8>> = base.a.iter().take(bcap).map(|x| x.le()).collect();
     let c: Vec<Vec<u8>> = base.c.iter().map(|x| x.le()).collect();
-    let label = format!("CLOSURE: {} model-derived values (of {} found) x GRID", v1.len(), found);
+    let label = format!("CLOSURE: {} model-derived values (of {} found) x {} initial values", v1.len(), found, b.len());
     Some(
         Plan::new(&label, &v1, &b, &c)
             .with_aux(Aux::Shift, sets::shift_amounts(T::BITS, T::DIGIT_BITS, Tier::Quick))
             .with_aux(Aux::Exp, sets::exponents(T::BITS, Tier::Quick)),
     )
-}
-
-/// C08, logarithms at large widths: x in {b^k - 1, b^k, b^k + 1} for every k that fits (every
-/// `stride`-th k plus the last 40), for a small base list
-pub fn wide_log_plan<T: Subj>(stride: usize) -> Plan<T> {
-    let bits = T::BITS as u64;
-    let nb = T::bytes();
-    let max = if T::SIGNED { BigRef::pow2(bits - 1).sub(&big(1)) } else { BigRef::pow2(bits).sub(&big(1)) };
-    let bases: Vec<BigRef> = vec![big(10), big(2), big(3), big(7), big(255), BigRef::pow2(64).add(&big(1))];
-    let mut a: Vec<Vec<u8>> = Vec::new();
-    for b in &bases {
-        let mut powers: Vec<BigRef> = Vec::new();
-        let mut p = b.clone();
-        while p <= max {
-            powers.push(p.clone());
-            p = p.mul(b);
-        }
-        let n = powers.len();
-        for (k, p) in powers.iter().enumerate() {
-            if k % stride != 0 && k + 40 < n {
-                continue;
-            }
-            for d in -1..=1i128 {
-                let x = p.add(&big(d));
-                if !x.is_neg() && x <= max {
-                    a.push(x.to_le_bytes_wrapped(nb));
-                }
-            }
-        }
-    }
-    a.push(max.to_le_bytes_wrapped(nb));
-    let a = sets::dedup(a);
-    let b: Vec<Vec<u8>> = bases.iter().map(|x| x.to_le_bytes_wrapped(nb)).collect();
-    Plan::new("WIDE LOGS: b^k - 1, b^k, b^k + 1 up to the top of the range", &a, &b, &[]).with_aux(Aux::Exp, vec![0, 1, 2, 3])
 }
